@@ -96,6 +96,17 @@ class Prop(PropBase):
                 ctor = ["ca 0 616263 0 2 0 0 0 4 0 0 22 24 27 25", "cs 0 616263", "cn 0 3 5 97 0 0 0 9 0 0 0 9 0 0 22 24 27 25", "cz 0 616263"][(v + plane) % 4]
                 how = ["ix 0 1", "bi 0 1", "ri 0 1"][v % 3]
                 cs.append(Case("P %s ; %s %s ; tw 0 ; ob 0" % (ctor, how, el), sweep="string-recoloured-in-place"))
+        # the colour in effect, a visit to the alternate screen buffer with another attribute written there, back, the colour
+        # again: the rendition belongs to the terminal, not to the buffer
+        for v in range(16, 256):
+            kind = 1 if v < 232 else 2
+            for plane in (0, 1):
+                col = "%d %d 0 0" % (kind, v)
+                at = ("%s 0 9 0 0" % col) if plane == 0 else ("0 9 0 0 %s" % col)
+                e1 = "5 97 0 0 %s 22 24 27 25" % at
+                other = "5 98 0 0 0 %d 0 0 0 %d 0 0 1 24 27 25" % (1 + v % 7, 1 + (v + 3) % 7)
+                cs.append(Case("T 0 ; we %s ; ab ; we %s ; nb ; we %s ; ab ; nb ; we %s" % (e1, other, e1, e1), sweep="wire-around-the-alternate-buffer",
+                               cfgs=["%d 1 %d 0 5 2" % (v % 3, v % 6)]))
         # palette colours must survive attribute transitions: same colour, effects switching on/off around it
         effs = [(i, u, p, b) for i in (1, 2, 22) for u in (4, 24) for p in (7, 27) for b in (5, 25)]
         vals = [16, 17, 52, 196, 231, 232, 255] if tier == "quick" else list(range(16, 256, 5))
